@@ -55,6 +55,13 @@ Lemma gpf_transient_inner_failure_witness :
     o_log o = [Measure; Measure; Predicted; Innovation; NoiseCov] /\ fst (o_lik o) = true.
 Proof. eexists. split; [vm_compute; reflexivity|]. repeat split. Qed.
 
+(* correct(p, p) on GPF(KF, GaussianLikelihood), measure() unavailable: re-drawn states are handed back *)
+Lemma gpf_aliased_witness :
+  exists o, run_gpf_cfg (mkCfg false false false true) 0 true 0 false [bad Measure] = [o] /\
+    o_g o = leaf (IPredG 0) /\ tm_eqb (o_s o) (leaf (IPredS 0)) = false /\
+    o_s o = Node FSampleS [leaf IRng; leaf (IPredG 0); leaf (IPredS 0)] /\ o_lik o = (false, leaf FZero1).
+Proof. eexists. split; [vm_compute; reflexivity|]. repeat split. Qed.
+
 (* non-vacuity examples: all sixteen patterns of the four measurement-model calls, on the KF skeleton *)
 Definition all16 : list (list bool) :=
   flat_map (fun a => flat_map (fun b => flat_map (fun c => map (fun d => [a; b; c; d; false; false]) [false; true])
